@@ -204,7 +204,7 @@ BindArgs(args, callerEnv, scope) ==
   IF args = <<>> THEN [t |-> "env", sc |-> <<scope>> \o callerEnv]
   ELSE LET v == Ev(args[1].ex, callerEnv) IN
        IF Bad(v) THEN v
-       ELSE IF args[1].key = "loop" THEN Unspec
+       ELSE IF args[1].key = "loop" THEN Err("loop is reserved")      \* C04: the name loop can never be assigned, by no binder
        ELSE LET old == Lookup(callerEnv, args[1].key) IN
             IF ~IsErr(old) /\ old.t # v.t /\ CollidePolicy # "shadow" THEN Unspec
             ELSE BindArgs(Tail(args), callerEnv, BindIn(scope, args[1].key, v))
